@@ -663,6 +663,24 @@ def s_props(F, res):
                             srcs += mir.provenance(b, db, a_, transparent_extra=PASS + ("tx3_lang::ast::Identifier::new", "std::convert::AsRef::as_ref", "std::string::String::as_str", "std::ops::Deref::deref"))
                     else:
                         srcs.append(o)
+                # inside a closure handed to an adaptor (`ty.properties().into_iter().for_each(|(name, subty)| ..)`): the
+                # closure's parameter is an element of what the adaptor's receiver iterates over
+                if b is not f:
+                    resolved = []
+                    for x in srcs:
+                        if x.kind == "arg" and x.local >= 2:
+                            hit = None
+                            for hb in with_closures(F, f):
+                                dh = du if hb is f else mir.DefUse(hb)
+                                for _, t2 in mir.calls(hb):
+                                    if b["path"] in (t2.get("fnrefs") or ()) and t2["args"]:
+                                        for o2 in mir.provenance(hb, dh, t2["args"][0], transparent_extra=PASS):
+                                            if o2.kind == "call" and (o2.callee or "").endswith("::properties"):
+                                                hit = o2
+                            resolved.append(hit if hit is not None else x)
+                        else:
+                            resolved.append(x)
+                    srcs = resolved
                 from_props = [x for x in srcs if x.kind == "call" and (x.callee or "").endswith("::properties")]
                 other = [x for x in srcs if not (x.kind == "call" and (x.callee or "").endswith("::properties")) and x.kind != "const"]
                 if not from_props or other:
